@@ -514,11 +514,27 @@ class Runner:
             import multiprocessing as mp
             _WORKER["fam"], _WORKER["driver"] = fam, self.driver
             pool = mp.get_context("fork").Pool(jobs)
-            results = pool.imap(_worker_eval, _batched(it, fam.batch))
+            # At most 2*jobs batches are in flight, and once `stop` is set the feeder ends: the
+            # remaining results are then drained before terminate().  (Pool.terminate() dead-locks
+            # when its task-handler thread is blocked sending into a full pipe of killed workers,
+            # which happened whenever a family with a long generator was stopped early.)
+            import threading
+            stop = threading.Event()
+            slots = threading.Semaphore(jobs * 2)
+
+            def _feed():
+                for b in _batched(it, fam.batch):
+                    slots.acquire()
+                    if stop.is_set():
+                        return
+                    yield b
+            results = pool.imap(_worker_eval, _feed())
         else:
             results = (self.eval_batch(fam, b) for b in _batched(it, fam.batch))
         try:
             for triples in results:
+                if pool is not None:
+                    slots.release()
                 for case, po, res in triples:
                     self._account(fam, st, case, po, res)
                 if st["failures"] >= 300:
@@ -532,6 +548,14 @@ class Runner:
                     break
         finally:
             if pool is not None:
+                stop.set()
+                for _ in range(jobs * 4):
+                    slots.release()
+                try:
+                    for _ in results:   # in-flight batches only (<= 2*jobs); their results are dropped
+                        pass
+                except Exception:
+                    pass
                 pool.terminate()
                 pool.join()
         if not st["exhaustive"]:
